@@ -5,7 +5,11 @@
    Float routines (softmax, softmin, batch/layer/instance/group norm, linear, bilinear, pairwise_distance,
    cosine_similarity): NOT extracted — the reference below is a hand-written OCaml nested-loop oracle in IEEE
    double (model = spec = that oracle, dom = 0: no theorem covers them).  Array data arrive as integers and are
-   divided by 8.0 on both sides (exact in binary). *)
+   divided by 8.0 on both sides (exact in binary, also in single precision).  The oracle follows the definitions'
+   own stabilisation: softmax subtracts the maximum of THE SLICE along the axis (never a global maximum), the norms
+   are two-pass (mean, then mean of squared deviations).  Every routine is registered twice: "<op>" for the double
+   driver and "<op>32" for the float driver; the latter prefixes its result with "f32 " so that harness/props/c17.py
+   compares with the single-precision tolerance (the reference is still computed in double). *)
 open BinNums
 open Datatypes
 open Base
@@ -90,22 +94,26 @@ let stats x idx same =
   for k = 0 to numel x.sh - 1 do let j = unravel x.sh k in if same idx j then v := !v +. (x.d.(k) -. mean) ** 2.0 done;
   (mean, !v /. float_of_int !n)
 
+let regf name f =
+  register name f;
+  register (name ^ "32") (fun a -> let r = f a in { r with model = "f32 " ^ r.model; spec = "f32 " ^ r.spec })
+
 let () =
   register "conv1d" (conv 1); register "conv2d" (conv 2);
   register "max_pool2d" (pool true); register "avg_pool2d" (pool false);
-  register "softmax" (fun a -> match a with [x; ax] -> oracle (show_fa (softmax (fa_of x) (int_of_z (getI ax)))) | _ -> failwith "softmax");
-  register "softmin" (fun a -> match a with
+  regf "softmax" (fun a -> match a with [x; ax] -> oracle (show_fa (softmax (fa_of x) (int_of_z (getI ax)))) | _ -> failwith "softmax");
+  regf "softmin" (fun a -> match a with
     | [x; ax] -> let x = fa_of x in oracle (show_fa (softmax { x with d = Array.map (fun v -> -. v) x.d } (int_of_z (getI ax))))
     | _ -> failwith "softmin");
   (* y[n,c,h,w] = (x - mean[c]) / sqrt(var[c] + eps) * weight[c] + bias[c] *)
-  register "batch_norm" (fun a -> match a with
+  regf "batch_norm" (fun a -> match a with
     | [x; m; v; w; b] -> let x = fa_of x and m = fa_of m and v = fa_of v and w = fa_of w and b = fa_of b in
         let r = Array.length x.sh in
         oracle (show_fa (build x.sh (fun i -> let c = i.(r - 3) in
           (get x i -. m.d.(c)) /. sqrt (v.d.(c) +. eps5) *. w.d.(c) +. b.d.(c))))
     | _ -> failwith "batch_norm");
   (* statistics over the trailing len(weight.shape) axes, weight/bias indexed by those axes *)
-  register "layer_norm" (fun a -> match a with
+  regf "layer_norm" (fun a -> match a with
     | [x; w; b] -> let x = fa_of x and w = fa_of w and b = fa_of b in
         let r = Array.length x.sh and k = Array.length w.sh in
         oracle (show_fa (build x.sh (fun i ->
@@ -115,7 +123,7 @@ let () =
           (get x i -. mean) /. sqrt (var +. eps5) *. get w wi +. get b wi)))
     | _ -> failwith "layer_norm");
   (* statistics per (n, c) over the trailing nd axes; weight/bias per channel *)
-  register "instance_norm" (fun a -> match a with
+  regf "instance_norm" (fun a -> match a with
     | [nd; x; w; b] -> let nd = int_of_z (getI nd) in let x = fa_of x and w = fa_of w and b = fa_of b in
         let r = Array.length x.sh in
         oracle (show_fa (build x.sh (fun i ->
@@ -125,7 +133,7 @@ let () =
           (get x i -. mean) /. sqrt (var +. eps5) *. w.d.(c) +. b.d.(c))))
     | _ -> failwith "instance_norm");
   (* statistics per (n, channel group) over the group's channels and all spatial positions *)
-  register "group_norm" (fun a -> match a with
+  regf "group_norm" (fun a -> match a with
     | [x; g; w; b] -> let g = int_of_z (getI g) in let x = fa_of x and w = fa_of w and b = fa_of b in
         let cg = x.sh.(1) / g in
         oracle (show_fa (build x.sh (fun i ->
@@ -134,7 +142,7 @@ let () =
           (get x i -. mean) /. sqrt (var +. eps5) *. w.d.(i.(1)) +. b.d.(i.(1)))))
     | _ -> failwith "group_norm");
   (* y[..., o] = sum_i x[..., i] * w[o, i] + b[o] *)
-  register "linear" (fun a -> match a with
+  regf "linear" (fun a -> match a with
     | [x; w; b] -> let x = fa_of x and w = fa_of w in
         let bo = (match b with N -> None | _ -> Some (fa_of b)) in
         let r = Array.length x.sh in let inf = x.sh.(r - 1) and outf = w.sh.(0) in
@@ -145,7 +153,7 @@ let () =
           !s +. (match bo with Some b -> b.d.(o) | None -> 0.0))))
     | _ -> failwith "linear");
   (* y[..., o] = sum_{i,j} x1[..., i] * w[o, i, j] * x2[..., j] + b[o] *)
-  register "bilinear" (fun a -> match a with
+  regf "bilinear" (fun a -> match a with
     | [x1; x2; w; b] -> let x1 = fa_of x1 and x2 = fa_of x2 and w = fa_of w in
         let bo = (match b with N -> None | _ -> Some (fa_of b)) in
         let r = Array.length x1.sh in let n1 = x1.sh.(r - 1) and n2 = x2.sh.(r - 1) and outf = w.sh.(0) in
@@ -158,7 +166,7 @@ let () =
           !s +. (match bo with Some b -> b.d.(o) | None -> 0.0))))
     | _ -> failwith "bilinear");
   (* || x - y + eps ||_2 over the last axis, eps = 1e-6 *)
-  register "pairwise_distance" (fun a -> match a with
+  regf "pairwise_distance" (fun a -> match a with
     | [x; y] -> let x = fa_of x and y = fa_of y in
         let r = Array.length x.sh in let n = x.sh.(r - 1) in
         let sh = Array.sub x.sh 0 (r - 1) in
@@ -169,7 +177,7 @@ let () =
           sqrt !s)))
     | _ -> failwith "pairwise_distance");
   (* sum_k x*y / (max(||x||,eps) * max(||y||,eps)) along axis, eps = 1e-8 *)
-  register "cosine_similarity" (fun a -> match a with
+  regf "cosine_similarity" (fun a -> match a with
     | [x; y; ax] -> let x = fa_of x and y = fa_of y and ax = int_of_z (getI ax) in
         let r = Array.length x.sh in let n = x.sh.(ax) in
         let sh = Array.init (r - 1) (fun t -> if t < ax then x.sh.(t) else x.sh.(t + 1)) in
